@@ -19,56 +19,65 @@ Definition expected : table :=
         Return ]);
     ("Install.RunWithContext",
       [ If (CNot (CFlag "ClientOnly"))
-          [ If CErr
-              [ Return ] [] ] [];
+          [ Pure;
+            If CErr
+              [ ReturnErr ] [] ] [];
         If (CAnd (CNot (CFlag "DryRun")) (CFlag "HideSecret"))
-          [ Return ] [];
+          [ ReturnErr ] [];
         Fn "Install.availableName" "";
         If CErr
-          [ Return ] [];
+          [ ReturnErr ] [];
+        Pure;
         If CErr
-          [ Return ] [];
+          [ ReturnErr ] [];
         If (CAnd (CAnd (CNot (CFlag "ClientOnly")) (CNot (CFlag "SkipCRDs"))) CData)
           [ If (CFlag "DryRun")
               []
               [ Call (Other "installCRDs");
                 If CErr
-                  [ Return ] [] ] ] [];
+                  [ ReturnErr ] [] ] ] [];
+        Pure;
         If CErr
-          [ Return ] [];
+          [ ReturnErr ] [];
+        Pure;
         If CErr
-          [ Return ] [];
+          [ ReturnErr ] [];
         If CData
-          [ Return ] [];
+          [ ReturnErr ] [];
+        Pure;
         If CErr
-          [ Return ] [];
+          [ ReturnErr ] [];
+        Pure;
         If CErr
-          [ Return ] [];
+          [ ReturnErr ] [];
+        Pure;
         If CErr
-          [ Return ] [];
+          [ ReturnErr ] [];
         If (CAnd (CAnd (CNot (CFlag "ClientOnly")) CData) CData)
           [ If (CFlag "TakeOwnership")
               [ Call (KcExisting true) ]
               [ Call (KcExisting false) ];
             If CErr
-              [ Return ] [] ] [];
+              [ ReturnErr ] [] ] [];
         If (CFlag "DryRun")
-          [ Return ] [];
+          [ ReturnOk ] [];
         If (CFlag "CreateNamespace")
-          [ If CErr
-              [ Return ] [];
+          [ Pure;
             If CErr
-              [ Return ] [];
+              [ ReturnErr ] [];
+            Pure;
+            If CErr
+              [ ReturnErr ] [];
             Call KcCreate;
             If (CAnd CErr CData)
-              [ Return ] [] ] [];
+              [ ReturnErr ] [] ] [];
         If (CFlag "Replace")
           [ Fn "Install.replaceRelease" "";
             If CErr
-              [ Return ] [] ] [];
+              [ ReturnErr ] [] ] [];
         Fn "Storage.Create" "";
         If CErr
-          [ Return ] [];
+          [ ReturnErr ] [];
         Fn "Install.performInstallCtx" "";
         If CErr
           [ Fn "Install.failRelease" "" ] [];
@@ -76,13 +85,14 @@ Definition expected : table :=
     ("Install.performInstallCtx",
       [ Fn "Install.performInstall" "";
         If CData
-          [ Return ]
+          [ Pure;
+            Return ]
           [ Return ] ]);
     ("Install.performInstall",
       [ If (CNot (CFlag "DisableHooks"))
           [ Fn "Configuration.execHook" "pre-install";
             If CErr
-              [ Return ] [] ] [];
+              [ ReturnErr ] [] ] [];
         If CData
           [ Call KcCreate ]
           [ If CData
@@ -90,48 +100,50 @@ Definition expected : table :=
                   [ Call KcUpdate ]
                   [ Call KcUpdate ] ] [] ];
         If CErr
-          [ Return ] [];
+          [ ReturnErr ] [];
+        Pure;
         If CErr
-          [ Return ] [];
+          [ ReturnErr ] [];
         If (CFlag "WaitForJobs")
           [ Call KcWaitJobs ]
           [ Call KcWait ];
         If CErr
-          [ Return ] [];
+          [ ReturnErr ] [];
         If (CNot (CFlag "DisableHooks"))
           [ Fn "Configuration.execHook" "post-install";
             If CErr
-              [ Return ] [] ] [];
+              [ ReturnErr ] [] ] [];
         Fn "Install.recordRelease" "";
-        Return ]);
+        ReturnOk ]);
     ("Install.failRelease",
       [ If (CFlag "Atomic")
           [ Run "Uninstall.Run" ["DisableHooks"];
             If CErr
-              [ Return ] [];
+              [ ReturnErr ] [];
             Return ] [];
         Fn "Install.recordRelease" "";
         Return ]);
     ("Install.availableName",
-      [ If CErr
-          [ Return ] [];
+      [ Pure;
+        If CErr
+          [ ReturnErr ] [];
         If (CFlag "DryRun")
-          [ Return ] [];
+          [ ReturnOk ] [];
         Fn "Storage.History" "";
         If (COr CErr CData)
-          [ Return ] [];
+          [ ReturnOk ] [];
         If (CAnd (CFlag "Replace") CData)
-          [ Return ] [];
-        Return ]);
+          [ ReturnOk ] [];
+        ReturnErr ]);
     ("Install.recordRelease",
       [ Fn "Storage.Update" "";
         Return ]);
     ("Install.replaceRelease",
       [ Fn "Storage.History" "";
         If (COr CErr CData)
-          [ Return ] [];
+          [ ReturnOk ] [];
         If CData
-          [ Return ] [];
+          [ ReturnOk ] [];
         If CData
           [ Return ] [];
         Fn "Install.recordRelease" "";
@@ -140,31 +152,33 @@ Definition expected : table :=
       [ Fn "Upgrade.RunWithContext" "";
         Return ]);
     ("Upgrade.RunWithContext",
-      [ If CErr
-          [ Return ] [];
+      [ Pure;
         If CErr
-          [ Return ] [];
+          [ ReturnErr ] [];
+        Pure;
+        If CErr
+          [ ReturnErr ] [];
         Fn "Upgrade.prepareUpgrade" "";
         If CErr
-          [ Return ] [];
+          [ ReturnErr ] [];
         Fn "Upgrade.performUpgrade" "";
         If CErr
-          [ Return ] [];
+          [ ReturnErr ] [];
         If (CNot (CFlag "DryRun"))
           [ Fn "Storage.Update" "";
             If CErr
-              [ Return ] [] ] [];
-        Return ]);
+              [ ReturnErr ] [] ] [];
+        ReturnOk ]);
     ("Upgrade.prepareUpgrade",
       [ If CData
           [ Return ] [];
         If (CAnd (CNot (CFlag "DryRun")) (CFlag "HideSecret"))
-          [ Return ] [];
+          [ ReturnErr ] [];
         Fn "Storage.Last" "";
         If CErr
           [ If CData
               [ Return ] [];
-            Return ] [];
+            ReturnErr ] [];
         If CData
           [ Return ] [];
         If CData
@@ -173,39 +187,48 @@ Definition expected : table :=
             If CErr
               [ If CData
                   []
-                  [ Return ] ] [] ];
+                  [ ReturnErr ] ] [] ];
+        Pure;
         If CErr
-          [ Return ] [];
+          [ ReturnErr ] [];
+        Pure;
         If CErr
-          [ Return ] [];
+          [ ReturnErr ] [];
+        Pure;
         If CErr
-          [ Return ] [];
+          [ ReturnErr ] [];
+        Pure;
         If CErr
-          [ Return ] [];
+          [ ReturnErr ] [];
+        Pure;
         If CErr
-          [ Return ] [];
+          [ ReturnErr ] [];
         If CData
-          [ Return ] [];
+          [ ReturnErr ] [];
+        Pure;
         Return ]);
     ("Upgrade.performUpgrade",
-      [ If CErr
+      [ Pure;
+        If CErr
           [ If CData
-              [ Return ] [];
-            Return ] [];
+              [ ReturnErr ] [];
+            ReturnErr ] [];
+        Pure;
         If CErr
-          [ Return ] [];
+          [ ReturnErr ] [];
+        Pure;
         If CErr
-          [ Return ] [];
+          [ ReturnErr ] [];
         If (CFlag "TakeOwnership")
           [ Call (KcExisting true) ]
           [ Call (KcExisting false) ];
         If CErr
-          [ Return ] [];
+          [ ReturnErr ] [];
         If (CFlag "DryRun")
-          [ Return ] [];
+          [ ReturnOk ] [];
         Fn "Storage.Create" "";
         If CErr
-          [ Return ] [];
+          [ ReturnErr ] [];
         Fn "Upgrade.releasingUpgrade" "";
         Fn "Upgrade.handleContext" "";
         If CData
@@ -231,6 +254,7 @@ Definition expected : table :=
             Return ] [];
         If (CFlag "Recreate")
           [ Call (Other "recreate") ] [];
+        Pure;
         If CErr
           [ Fn "Configuration.recordRelease" "";
             Fn "Upgrade.reportToPerformUpgrade" "";
@@ -262,64 +286,69 @@ Definition expected : table :=
         If (CFlag "Atomic")
           [ Run "History.Run" [];
             If CErr
-              [ Return ] [];
+              [ ReturnErr ] [];
             If CData
               [ Return ] [];
             Run "Rollback.Run" ["DisableHooks"; "Recreate"; "WaitForJobs"];
             If CErr
-              [ Return ] [];
+              [ ReturnErr ] [];
             Return ] [];
         Return ]);
     ("Rollback.Run",
-      [ If CErr
-          [ Return ] [];
+      [ Pure;
+        If CErr
+          [ ReturnErr ] [];
         Fn "Rollback.prepareRollback" "";
         If CErr
-          [ Return ] [];
+          [ ReturnErr ] [];
         If (CNot (CFlag "DryRun"))
           [ Fn "Storage.Create" "";
             If CErr
-              [ Return ] [] ] [];
+              [ ReturnErr ] [] ] [];
         Fn "Rollback.performRollback" "";
         If CErr
           [ If (CAnd (CNot (CFlag "DryRun")) CData)
               [ Fn "Configuration.recordRelease" "" ] [];
-            Return ] [];
+            ReturnErr ] [];
         If (CNot (CFlag "DryRun"))
           [ Fn "Storage.Update" "";
             If CErr
-              [ Return ] [] ] [];
-        Return ]);
+              [ ReturnErr ] [] ] [];
+        ReturnOk ]);
     ("Rollback.prepareRollback",
-      [ If CErr
-          [ Return ] [];
+      [ Pure;
+        If CErr
+          [ ReturnErr ] [];
         If CData
           [ Return ] [];
         Fn "Storage.Last" "";
         If CErr
-          [ Return ] [];
+          [ ReturnErr ] [];
         Fn "Storage.History" "";
         If CErr
-          [ Return ] [];
+          [ ReturnErr ] [];
         If CData
-          [ Return ] [];
+          [ ReturnErr ] [];
         Fn "Storage.Get" "";
         If CErr
-          [ Return ] [];
-        Return ]);
+          [ ReturnErr ] [];
+        ReturnOk ]);
     ("Rollback.performRollback",
       [ If (CFlag "DryRun")
-          [ Return ] [];
+          [ ReturnOk ] [];
+        Pure;
         If CErr
-          [ Return ] [];
+          [ ReturnErr ] [];
+        Pure;
         If CErr
-          [ Return ] [];
+          [ ReturnErr ] [];
         If (CNot (CFlag "DisableHooks"))
           [ Fn "Configuration.execHook" "pre-rollback";
             If CErr
-              [ Return ] [] ] [];
+              [ ReturnErr ] [] ] [];
+        Pure;
         If CErr
-          [ Return ] [];
+          [ ReturnErr ] [];
         Call KcUpdate;
         If CErr
           [ Fn "Configuration.recordRelease" "";
@@ -328,87 +357,93 @@ Definition expected : table :=
               [ Call KcDelete;
                 If CErr
                   [ Return ] [] ] [];
-            Return ] [];
+            ReturnErr ] [];
         If (CFlag "Recreate")
           [ Call (Other "recreate") ] [];
+        Pure;
         If CErr
-          [ Return ] [];
+          [ ReturnErr ] [];
         If (CFlag "WaitForJobs")
           [ Call KcWaitJobs;
             If CErr
               [ Fn "Configuration.recordRelease" "";
                 Fn "Configuration.recordRelease" "";
-                Return ] [] ]
+                ReturnErr ] [] ]
           [ Call KcWait;
             If CErr
               [ Fn "Configuration.recordRelease" "";
                 Fn "Configuration.recordRelease" "";
-                Return ] [] ];
+                ReturnErr ] [] ];
         If (CNot (CFlag "DisableHooks"))
           [ Fn "Configuration.execHook" "post-rollback";
             If CErr
-              [ Return ] [] ] [];
+              [ ReturnErr ] [] ] [];
         Fn "Storage.DeployedAll" "";
         If (CAnd CErr CData)
-          [ Return ] [];
+          [ ReturnErr ] [];
         Loop
           [ Fn "Configuration.recordRelease" "" ];
-        Return ]);
+        ReturnOk ]);
     ("Uninstall.Run",
-      [ If CErr
-          [ Return ] [];
+      [ Pure;
         If CErr
-          [ Return ] [];
+          [ ReturnErr ] [];
+        Pure;
+        If CErr
+          [ ReturnErr ] [];
         If (CFlag "DryRun")
           [ Fn "Configuration.releaseContent" "";
             If CErr
-              [ Return ] [];
-            Return ] [];
+              [ ReturnErr ] [];
+            ReturnOk ] [];
+        Pure;
         If CErr
-          [ Return ] [];
+          [ ReturnErr ] [];
         Fn "Storage.History" "";
         If CErr
           [ If (CFlag "IgnoreNotFound")
-              [ Return ] [];
-            Return ] [];
+              [ ReturnOk ] [];
+            ReturnErr ] [];
         If CData
           [ Return ] [];
         If CData
           [ If (CNot (CFlag "KeepHistory"))
               [ Fn "Uninstall.purgeReleases" "";
                 If CErr
-                  [ Return ] [];
-                Return ] [];
-            Return ] [];
+                  [ ReturnErr ] [];
+                ReturnOk ] [];
+            ReturnErr ] [];
         If (CNot (CFlag "DisableHooks"))
           [ Fn "Configuration.execHook" "pre-delete";
             If CErr
-              [ Return ] [] ] [];
+              [ ReturnErr ] [] ] [];
         Fn "Storage.Update" "";
         Fn "Uninstall.deleteRelease" "";
         If CErr
-          [ Return ] [];
+          [ ReturnErr ] [];
         Call KcWaitDelete;
         If (CNot (CFlag "DisableHooks"))
           [ Fn "Configuration.execHook" "post-delete" ] [];
         If (CNot (CFlag "KeepHistory"))
           [ Fn "Uninstall.purgeReleases" "";
             If CData
-              [ Return ] [];
-            Return ] [];
+              [ ReturnErr ] [];
+            ReturnOk ] [];
         Fn "Storage.Update" "";
         If CData
-          [ Return ] [];
-        Return ]);
+          [ ReturnErr ] [];
+        ReturnOk ]);
     ("Uninstall.purgeReleases",
       [ Loop
           [ Fn "Storage.Delete" "";
             If CErr
-              [ Return ] [] ];
-        Return ]);
+              [ ReturnErr ] [] ];
+        ReturnOk ]);
     ("Uninstall.deleteRelease",
-      [ If CErr
+      [ Pure;
+        If CErr
           [ Return ] [];
+        Pure;
         If CErr
           [ Return ] [];
         If CData
@@ -418,85 +453,93 @@ Definition expected : table :=
             Call KcDelete ] [];
         Return ]);
     ("History.Run",
-      [ If CErr
-          [ Return ] [];
+      [ Pure;
         If CErr
-          [ Return ] [];
+          [ ReturnErr ] [];
+        Pure;
+        If CErr
+          [ ReturnErr ] [];
         Fn "Storage.History" "";
         Return ]);
     ("Configuration.execHook",
       [ Loop
           [ Fn "Configuration.deleteHookByPolicy" "";
             If CErr
-              [ Return ] [];
+              [ ReturnErr ] [];
+            Pure;
             If CErr
-              [ Return ] [];
+              [ ReturnErr ] [];
             Fn "Configuration.recordRelease" "";
             Call KcCreate;
             If CErr
-              [ Return ] [];
+              [ ReturnErr ] [];
+            Pure;
             If CErr
-              [ Return ] [];
+              [ ReturnErr ] [];
             Call (KcWatch "");
             If CErr
               [ Fn "Configuration.outputLogsByPolicy" "";
                 Fn "Configuration.deleteHookByPolicy" "";
                 Fn "Configuration.deleteHooksByPolicy" "";
                 If CErr
-                  [ Return ] [];
+                  [ ReturnErr ] [];
                 Return ] [] ];
         Loop
           [ Fn "Configuration.outputLogsByPolicy" "";
             Fn "Configuration.deleteHookByPolicy" "";
             If CErr
-              [ Return ] [] ];
-        Return ]);
+              [ ReturnErr ] [] ];
+        ReturnOk ]);
     ("Configuration.deleteHookByPolicy",
       [ If CData
-          [ Return ] [];
+          [ ReturnOk ] [];
         If CData
-          [ If CErr
-              [ Return ] [];
+          [ Pure;
+            If CErr
+              [ ReturnErr ] [];
             Call KcDelete;
             If CData
-              [ Return ] [];
+              [ ReturnErr ] [];
+            Pure;
             If CErr
-              [ Return ] [];
+              [ ReturnErr ] [];
             Call KcWaitDelete;
             If CErr
-              [ Return ] [] ] [];
-        Return ]);
+              [ ReturnErr ] [] ] [];
+        ReturnOk ]);
     ("Configuration.deleteHooksByPolicy",
       [ Loop
           [ Fn "Configuration.deleteHookByPolicy" "";
             If CErr
-              [ Return ] [] ];
-        Return ]);
+              [ ReturnErr ] [] ];
+        ReturnOk ]);
     ("Configuration.outputLogsByPolicy",
       [ If CData
-          [ Return ] [];
+          [ ReturnOk ] [];
+        Pure;
         If CErr
-          [ Return ] [];
+          [ ReturnErr ] [];
         If CData
           [ Fn "Configuration.outputContainerLogsForListOptions" "";
             Return ]
           [ If CData
               [ Fn "Configuration.outputContainerLogsForListOptions" "";
                 Return ]
-              [ Return ] ] ]);
+              [ ReturnOk ] ] ]);
     ("Configuration.outputContainerLogsForListOptions",
       [ If CData
           [ Call (Other "GetPodList");
             If CErr
-              [ Return ] [];
+              [ ReturnErr ] [];
             Call (Other "OutputContainerLogsForPodList");
             Return ] [];
-        Return ]);
+        ReturnOk ]);
     ("Configuration.recordRelease",
       [ Fn "Storage.Update" "" ]);
     ("Configuration.releaseContent",
-      [ If CErr
-          [ Return ] [];
+      [ Pure;
+        If CErr
+          [ ReturnErr ] [];
         If CData
           [ Fn "Storage.Last" "";
             Return ] [];
@@ -509,7 +552,7 @@ Definition expected : table :=
       [ If CData
           [ Fn "Storage.removeLeastRecent" "";
             If (CAnd CErr CData)
-              [ Return ] [] ] [];
+              [ ReturnErr ] [] ] [];
         Call DCreate;
         Return ]);
     ("Storage.Update",
@@ -521,14 +564,14 @@ Definition expected : table :=
     ("Storage.Deployed",
       [ Fn "Storage.DeployedAll" "";
         If CErr
-          [ Return ] [];
+          [ ReturnErr ] [];
         If CData
           [ Return ] [];
-        Return ]);
+        ReturnOk ]);
     ("Storage.DeployedAll",
       [ Call DDeployed;
         If (CNot CErr)
-          [ Return ] [];
+          [ ReturnOk ] [];
         If CData
           [ Return ] [];
         Return ]);
@@ -537,31 +580,31 @@ Definition expected : table :=
         Return ]);
     ("Storage.removeLeastRecent",
       [ If CData
-          [ Return ] [];
+          [ ReturnOk ] [];
         Fn "Storage.History" "";
         If CErr
-          [ Return ] [];
+          [ ReturnErr ] [];
         If CData
-          [ Return ] [];
+          [ ReturnOk ] [];
         Fn "Storage.Deployed" "";
         If (CAnd CErr CData)
-          [ Return ] [];
+          [ ReturnErr ] [];
         Loop
           [ Fn "Storage.deleteReleaseVersion" "" ];
         If CData
-          [ Return ]
+          [ ReturnOk ]
           [ If CData
               [ Return ]
-              [ Return ] ] ]);
+              [ ReturnErr ] ] ]);
     ("Storage.deleteReleaseVersion",
       [ Fn "Storage.Delete" "";
         If CErr
-          [ Return ] [];
-        Return ]);
+          [ ReturnErr ] [];
+        ReturnOk ]);
     ("Storage.Last",
       [ Fn "Storage.History" "";
         If CErr
-          [ Return ] [];
+          [ ReturnErr ] [];
         If CData
-          [ Return ] [];
-        Return ]) ].
+          [ ReturnErr ] [];
+        ReturnOk ]) ].
